@@ -13,7 +13,6 @@ import (
 	"github.com/superfly/litefs/verifharness/sim"
 )
 
-
 func lfuseRootHandle(cn *sim.CNode) *lfuse.RootHandle { return lfuse.NewRootHandle(cn.Root) }
 
 // Stage is one TLC run over Replication.tla that model-checks a configuration and emits scripts.
